@@ -30,6 +30,31 @@ BOUNDS = {'quick': dict(depth=3, datasets=['S3u']), 'thorough': dict(depth=6, da
 def V(site, clause, msg, triggers=(), **detail):
     return dict(site=site, clause=clause, msg=msg, triggers=list(triggers), detail=detail)
 
+def batch_independent(est, T, dec, site, out, tr=(), sign_predict=True):
+    """decision_function of one call on 2^13+1 / 2^14+1 / 2^12-1 tuples (the small batch tiled) = the values of the small batch
+    (up to BLAS rounding: 1e-9 of the largest |decision| of the batch) and predict follows the sign there."""
+    T = np.asarray(T)
+    scale = max(float(np.abs(dec).max()), 1e-300)
+    for size in (2 ** 13 + 1, 2 ** 14 + 1, 2 ** 12 - 1):
+        reps = -(-size // len(T))
+        big = np.tile(T, (reps,) + (1,) * (T.ndim - 1))[:size]
+        db = est.decision_function(big)
+        ix = np.arange(size) % len(T)
+        bad = ~(np.abs(db - dec[ix]) <= 1e-9 * scale)
+        if bad.any():
+            k = int(np.argmax(bad))
+            out.append(V(site, 'batch_size_dependent', 'decision_function of tuple %d differs when it is scored as row %d of one batch of %d '
+                         'tuples (%r) instead of in a batch of %d (%r)' % (ix[k], k, size, db[k], len(T), dec[ix[k]]), list(tr) + ['batch=%d' % size]))
+            return
+        if not sign_predict:
+            continue
+        pb = est.predict(big)
+        clear = np.abs(dec[ix]) > 1e-6 * scale
+        if not np.array_equal(pb[clear], np.where(dec[ix][clear] > 0, 1, -1)):
+            out.append(V(site, 'batch_size_dependent', 'predict on a batch of %d tuples does not follow the sign of the decision function' % size,
+                         list(tr) + ['batch=%d' % size]))
+            return
+
 
 def auc_exact(score, y):
     pos = [s for s, l in zip(score, y) if l == 1]
@@ -133,6 +158,7 @@ def pairs_search(name, ds, depth):
             v.append(V(site, 'predict_values', 'predict returns values outside {-1,+1}', tr))
         if not np.array_equal(dec, -d):
             v.append(V(site, 'decision_function', 'decision_function is not exactly -pair_distance', tr))
+        batch_independent(est, P, dec, site, v, tr, sign_predict=False)
         # single-precision test pairs: the same three identities, each within float32 inputs
         P32 = P.astype(np.float32)
         d32 = est.pair_distance(P32)
@@ -251,6 +277,7 @@ def run_case(spec):
         sc = est.score(T)
         if abs(sc - float(np.mean(exp == 1))) > 1e-12:
             viol.append(V(site, 'score', 'score=%r, fraction predicted +1 should be %r' % (sc, float(np.mean(exp == 1)))))
+        batch_independent(est, T, dec, site, viol)
         sw = est.decision_function(T[:, [0, 2, 1]])
         if not np.array_equal(sw, -dec):
             viol.append(V(site, 'swap_negates', 'swapping b and c does not negate the decision function exactly'))
@@ -273,6 +300,7 @@ def run_case(spec):
             k = int(np.argmax(pred != exp))
             viol.append(V(site, 'predict', 'predict=%r for quadruplet %s with d(a,b)=%r, d(c,d)=%r' % (pred[k], I[k].tolist(), dab[k], dcd[k]),
                           ['tie'] if dab[k] == dcd[k] else []))
+        batch_independent(est, T, dec, site, viol)
         sw = est.decision_function(T[:, [2, 3, 0, 1]])
         if not np.array_equal(sw, -dec):
             viol.append(V(site, 'swap_negates', 'swapping the two pairs does not negate the decision function exactly'))
